@@ -14,7 +14,7 @@
 (***************************************************************************)
 EXTENDS Naturals, Sequences, FiniteSets, TLC
 
-CONSTANTS MaxSessions, MaxConns, QCap, SCap, CCap, MaxDecodes, FanOut
+CONSTANTS MaxSessions, MaxConns, QCap, SCap, CCap, MaxDecodes, MaxCloses, FanOut
 
 VARIABLES tracker,   \* ids in age order (the senders the server task holds)
           live,      \* sessions whose task is still running
@@ -25,9 +25,10 @@ VARIABLES tracker,   \* ids in age order (the senders the server task holds)
           closing,   \* sessions that have ended and are waiting to queue their notification
           pc,        \* "select" | "fanout" | "done"
           todo,      \* sessions still to be served in the current fan-out
-          nextId, handle, decodes, shutReq
+          nextId, handle, decodes, shutReq,
+          closes     \* how many peers have closed their connection so far (budget)
 
-vars == <<tracker, live, blocked, sq, srvq, closeq, closing, pc, todo, nextId, handle, decodes, shutReq>>
+vars == <<tracker, live, blocked, sq, srvq, closeq, closing, pc, todo, nextId, handle, decodes, shutReq, closes>>
 
 M == IF MaxSessions = 0 THEN 1 ELSE MaxSessions
 Ids == 0..(MaxConns - 1)
@@ -36,21 +37,28 @@ SeqToSet(s) == {s[i] : i \in 1..Len(s)}
 Init ==
   /\ tracker = <<>> /\ live = {} /\ blocked = {} /\ sq = [i \in Ids |-> 0]
   /\ srvq = <<>> /\ closeq = {} /\ closing = {} /\ pc = "select" /\ todo = <<>>
-  /\ nextId = 0 /\ handle = TRUE /\ decodes = 0 /\ shutReq = FALSE
+  /\ nextId = 0 /\ handle = TRUE /\ decodes = 0 /\ shutReq = FALSE /\ closes = 0
 
 \* ---- the application, through the server handle
 SendDecode == /\ handle /\ decodes < MaxDecodes /\ Len(srvq) < SCap
               /\ srvq' = Append(srvq, "dec") /\ decodes' = decodes + 1
-              /\ UNCHANGED <<tracker, live, blocked, sq, closeq, closing, pc, todo, nextId, handle, shutReq>>
+              /\ UNCHANGED <<tracker, live, blocked, sq, closeq, closing, pc, todo, nextId, handle, shutReq, closes>>
 SendShutdown == /\ handle /\ ~shutReq /\ Len(srvq) < SCap
                 /\ srvq' = Append(srvq, "shut") /\ shutReq' = TRUE
-                /\ UNCHANGED <<tracker, live, blocked, sq, closeq, closing, pc, todo, nextId, handle, decodes>>
+                /\ UNCHANGED <<tracker, live, blocked, sq, closeq, closing, pc, todo, nextId, handle, decodes, closes>>
 DropHandle == /\ handle /\ handle' = FALSE /\ shutReq' = TRUE
-              /\ UNCHANGED <<tracker, live, blocked, sq, srvq, closeq, closing, pc, todo, nextId, decodes>>
+              /\ UNCHANGED <<tracker, live, blocked, sq, srvq, closeq, closing, pc, todo, nextId, decodes, closes>>
 
 \* ---- peers
 PeerStopsReading(i) == /\ i \in live /\ i \notin blocked /\ blocked = {} /\ blocked' = {i}
-                       /\ UNCHANGED <<tracker, live, sq, srvq, closeq, closing, pc, todo, nextId, handle, decodes, shutReq>>
+                       /\ UNCHANGED <<tracker, live, sq, srvq, closeq, closing, pc, todo, nextId, handle, decodes, shutReq, closes>>
+
+\* the peer closes its connection: the session sees EOF, ends and notifies; it stays in the tracker until the server
+\* task has taken the notification (so a dead session can still be "the oldest" and be evicted in place of a live one --
+\* the tracker then holds fewer live sessions than allowed, never more)
+PeerCloses(i) == /\ i \in live /\ i \notin blocked /\ closes < MaxCloses
+                 /\ live' = live \ {i} /\ closing' = closing \cup {i} /\ closes' = closes + 1
+                 /\ UNCHANGED <<tracker, blocked, sq, srvq, closeq, pc, todo, nextId, handle, decodes, shutReq>>
 
 \* ---- the server task (tcp::server::ServerTask::run)
 Accept ==
@@ -59,24 +67,24 @@ Accept ==
          t2 == (IF full THEN Tail(tracker) ELSE tracker) \o <<nextId>>
      IN tracker' = t2
   /\ live' = live \cup {nextId} /\ nextId' = nextId + 1
-  /\ UNCHANGED <<blocked, sq, srvq, closeq, closing, pc, todo, handle, decodes, shutReq>>
+  /\ UNCHANGED <<blocked, sq, srvq, closeq, closing, pc, todo, handle, decodes, shutReq, closes>>
 
 RecvCommand ==
   /\ pc = "select" /\ srvq # <<>>
   /\ srvq' = Tail(srvq)
   /\ IF Head(srvq) = "shut" THEN pc' = "done" /\ tracker' = <<>> /\ todo' = <<>>
      ELSE pc' = "fanout" /\ todo' = tracker /\ UNCHANGED tracker
-  /\ UNCHANGED <<live, blocked, sq, closeq, closing, nextId, handle, decodes, shutReq>>
+  /\ UNCHANGED <<live, blocked, sq, closeq, closing, nextId, handle, decodes, shutReq, closes>>
 
 HandleGone ==
   /\ pc = "select" /\ ~handle /\ srvq = <<>>
   /\ pc' = "done" /\ tracker' = <<>>
-  /\ UNCHANGED <<live, blocked, sq, srvq, closeq, closing, todo, nextId, handle, decodes, shutReq>>
+  /\ UNCHANGED <<live, blocked, sq, srvq, closeq, closing, todo, nextId, handle, decodes, shutReq, closes>>
 
 RecvClose ==
   /\ pc = "select" /\ closeq # {}
   /\ \E i \in closeq : closeq' = closeq \ {i} /\ tracker' = SelectSeq(tracker, LAMBDA x : x # i)
-  /\ UNCHANGED <<live, blocked, sq, srvq, closing, pc, todo, nextId, handle, decodes, shutReq>>
+  /\ UNCHANGED <<live, blocked, sq, srvq, closing, pc, todo, nextId, handle, decodes, shutReq, closes>>
 
 \* apply_command: forward the change to every tracked session
 Fanout ==
@@ -86,7 +94,7 @@ Fanout ==
           IF sq[i] < QCap THEN sq' = [sq EXCEPT ![i] = @ + 1] /\ todo' = Tail(todo) /\ UNCHANGED pc
           ELSE IF FanOut = "try" THEN todo' = Tail(todo) /\ UNCHANGED <<sq, pc>>      \* offered, not taken
           ELSE FALSE                                                                    \* awaits the full queue
-  /\ UNCHANGED <<tracker, live, blocked, srvq, closeq, closing, nextId, handle, decodes, shutReq>>
+  /\ UNCHANGED <<tracker, live, blocked, srvq, closeq, closing, nextId, handle, decodes, shutReq, closes>>
 
 ServerStep == Accept \/ RecvCommand \/ HandleGone \/ RecvClose \/ Fanout
 
@@ -94,20 +102,20 @@ ServerStep == Accept \/ RecvCommand \/ HandleGone \/ RecvClose \/ Fanout
 Tracked(i) == i \in SeqToSet(tracker)
 SessionDrain(i) == /\ i \in live /\ i \notin blocked /\ sq[i] > 0
                    /\ sq' = [sq EXCEPT ![i] = @ - 1]
-                   /\ UNCHANGED <<tracker, live, blocked, srvq, closeq, closing, pc, todo, nextId, handle, decodes, shutReq>>
+                   /\ UNCHANGED <<tracker, live, blocked, srvq, closeq, closing, pc, todo, nextId, handle, decodes, shutReq, closes>>
 \* its sender is gone (evicted, server ended): commands.recv() returns None once the queue is drained
 SessionEnds(i) == /\ i \in live /\ i \notin blocked /\ sq[i] = 0 /\ ~Tracked(i) /\ ~(pc = "fanout" /\ i \in SeqToSet(todo))
                   /\ live' = live \ {i} /\ closing' = closing \cup {i}
-                  /\ UNCHANGED <<tracker, blocked, sq, srvq, closeq, pc, todo, nextId, handle, decodes, shutReq>>
+                  /\ UNCHANGED <<tracker, blocked, sq, srvq, closeq, pc, todo, nextId, handle, decodes, shutReq, closes>>
 \* notify_close.send(id).await (dropped silently once the server task is gone)
 SessionNotifies(i) == /\ i \in closing
                       /\ \/ pc = "done" /\ UNCHANGED closeq
                          \/ pc # "done" /\ Cardinality(closeq) < CCap /\ closeq' = closeq \cup {i}
                       /\ closing' = closing \ {i}
-                      /\ UNCHANGED <<tracker, live, blocked, sq, srvq, pc, todo, nextId, handle, decodes, shutReq>>
+                      /\ UNCHANGED <<tracker, live, blocked, sq, srvq, pc, todo, nextId, handle, decodes, shutReq, closes>>
 SessionStep(i) == SessionDrain(i) \/ SessionEnds(i) \/ SessionNotifies(i)
 
-Next == SendDecode \/ SendShutdown \/ DropHandle \/ (\E i \in Ids : PeerStopsReading(i)) \/ ServerStep
+Next == SendDecode \/ SendShutdown \/ DropHandle \/ (\E i \in Ids : PeerStopsReading(i)) \/ (\E i \in Ids : PeerCloses(i)) \/ ServerStep
         \/ (\E i \in Ids : SessionStep(i))
 
 Spec == Init /\ [][Next]_vars /\ WF_vars(ServerStep) /\ \A i \in Ids : WF_vars(SessionStep(i))
